@@ -7,6 +7,7 @@
 -/
 import QExPy.Lemmas.FitResult
 import QExPy.Lemmas.FitSums
+import QExPy.Lemmas.Session
 
 namespace QExPy
 open Fit Expr
@@ -306,5 +307,53 @@ example (x : ℝ) :
     by_cases h : i = j
     · subst h; simp; exact mul_self_nonneg _
     · simp [h]
+
+
+/-! ### the session between the fit and the reads (Model/Session.lean) -/
+section Session
+open Session
+
+/-- **C07 (one covariance, for as long as the session lasts — one request).** A request of the
+    session that is not `reset_correlations` (a setting written, the configuration reset, unit
+    definitions cleared or added, other objects made with covariances among themselves, a rejected
+    request, a collector run) leaves the covariance record of every pair of objects that existed
+    before it as it was. -/
+theorem C07_session_step_invisible (s : State) (r : Req) (hr : r.forgets = false) (i j : Nat)
+    (hi : i < s.next) (hj : j < s.next) :
+    lookup (step s r) i j = lookup s i j ∧ s.next ≤ (step s r).next := by
+  cases r with
+  | newObjects n covs =>
+    refine ⟨?_, by simp [step]⟩
+    show Option.map _ ((covs.map (shift s.next) ++ s.reg).find? (keyMatch i j)) = _
+    rw [List.find?_append, find_shift_none _ _ _ hi hj]
+    simp [lookup]
+  | resetCorrelations => simp [Req.forgets] at hr
+  | _ => simp [step, lookup]
+
+/-- **C07 (one covariance, for as long as the session lasts).** After every history of session
+    requests without `reset_correlations` the register answers for the parameters of an earlier fit
+    what it answered right after the fit: uncertainties, reported matrix and registered
+    correlations keep coming from the one covariance. -/
+theorem C07_session_invisible (rs : List Req) (hrs : ∀ r ∈ rs, r.forgets = false) (s : State)
+    (i j : Nat) (hi : i < s.next) (hj : j < s.next) :
+    lookup (run s rs) i j = lookup s i j := by
+  induction rs generalizing s with
+  | nil => rfl
+  | cons r rs ih =>
+    have h := C07_session_step_invisible s r (hrs r (by simp)) i j hi hj
+    have h2 := ih (fun r' hr' => hrs r' (by simp [hr'])) (step s r) (by omega) (by omega)
+    rw [show run s (r :: rs) = run (step s r) rs from rfl, h2, h.1]
+
+/-- **C07 (the excluded request).** `reset_correlations` is the request that forgets: the guard of
+    `C07_session_invisible` is needed. -/
+theorem C07_session_reset_correlations_forgets (s : State) (i j : Nat) :
+    lookup (step s .resetCorrelations) i j = none := by
+  simp [step, lookup]
+
+/-- non-vacuity: a history of every kind of request after a three-parameter fit -/
+example : lookup (run (afterFit 3) [.setSetting "print_style" 2, .resetConfig, .newObjects 2 [((0, 1), 0)],
+    .rejected, .clearUnits]) 0 2 = some 2 := by decide
+
+end Session
 
 end QExPy
